@@ -11,6 +11,17 @@ import r_panic as PN
 import r_body as B
 import r_raise as RA
 
+import r_pe as PEV
+
+# rules re-based on the partial evaluator replace their first, shape-matching versions
+T.t_hdr = PEV.t_hdr
+T.t_width = PEV.t_width
+T.t_tname = PEV.t_tname
+IO.t_eof = PEV.t_eof
+IO.h_toio = PEV.h_toio
+IO.h_fromio = PEV.h_fromio
+D.h_block = PEV.h_block
+
 PROPS = {}
 
 RULE_TEXT = ("Obligations are rule instances evaluated on facts exported from the type-checked program "
